@@ -905,7 +905,8 @@ class World:
             return out
         aes_key, hmac_key = rc.derive_keys(aes_rand)
         out["rsa"] = C2Http(self.bconfig, rsa_private_key=self.priv)
-        out["aes_rand"] = C2Http(self.bconfig, aes_rand=aes_rand)
+        # (key material is bytes-like: every other run hands the random bytes over as a bytearray)
+        out["aes_rand"] = C2Http(self.bconfig, aes_rand=bytearray(aes_rand) if core.draw(self.run_seed, "randtype", kk) % 2 else aes_rand)
         out["aes_hmac"] = C2Http(self.bconfig, aes_key=aes_key, hmac_key=hmac_key)
         out["aes_noverify"] = C2Http(self.bconfig, aes_key=aes_key, verify_hmac=False)
         # the RSA key together with partial symmetric material: whatever is missing has to come from the first check-in
@@ -961,6 +962,7 @@ class World:
             for vname, dec in decs.items():
                 seen_checkin = False
                 last_ok = None
+                seq_rsa = []
                 order = self._tap_order(kk, vname)
                 first = order[0] if order else 0
                 for idx in order:
@@ -991,6 +993,8 @@ class World:
                     except Exception as e:  # noqa: BLE001
                         got, exc = None, e
                     self.res.log.log("decode", kk, vname, idx, rec.kind, type(exc).__name__ if exc else len(got))
+                    if vname == "rsa":
+                        seq_rsa.append((idx, http, type(exc).__name__ if exc else repr(_show(got))))
                     # ---- expectations
                     if rec.kind == "noise_req" or rec.kind == "unknown_req":
                         if rec.corrupted:
@@ -1031,6 +1035,23 @@ class World:
                         break
                     if got and rec.kind in ("get_resp", "post_req") and not req_corrupted:
                         last_ok = (idx, http, want)
+                if vname == "rsa" and len(seq_rsa) > 1 and not self.res.violations:
+                    # a caller that asks a (fresh, RSA-only) decoder for the iterators of all messages FIRST and consumes them
+                    # afterwards, in order: decoding is lazy, so this is the same schedule of work - and the same result
+                    from dissect.cobaltstrike.c2 import C2Http
+                    d2 = C2Http(self.bconfig, rsa_private_key=self.priv)
+                    its = [(idx_, d2.iter_recover_http(h_), o_) for idx_, h_, o_ in seq_rsa]
+                    self.res.probes["iterators_created_before_consumption"] += 1
+                    for idx_, it_, o_ in its:
+                        try:
+                            o2 = repr(_show(list(it_)))
+                        except Exception as e:  # noqa: BLE001
+                            o2 = type(e).__name__
+                        if o2 != o_:
+                            self.violate("C07", "deferred_consumption_differs", "rsa",
+                                         f"RSA-only decoder, iterators of {len(its)} messages created first and consumed in order: message "
+                                         f"{idx_} of client {kk} gives {o2[:200]}, decoded message by message it gave {o_[:200]}")
+                            break
                 # the same decoder object, shown a message it has already decoded, now with other keys passed per call
                 # (documented `keys=` argument): a changed HMAC key is rejected and yields no plaintext - whatever the object
                 # has seen before - and the attempt leaves the decoder as it was
